@@ -69,10 +69,20 @@ def _make_signals(
     for piece in encoding:
         mux_signal = resolve_mux(piece)
         mux_count = piece.extended_data.get("mux_count")
-        mux_ids = list(range(0, mux_count)) if mux_count is not None else None
+        # a mux_count alone (fcp v1 wrote "mux_count: 1" on every signal) multiplexes nothing
+        mux_ids = (
+            list(range(0, mux_count))
+            if mux_count is not None and mux_signal is not None
+            else None
+        )
         if mux_signal is not None and not mux_ids:
             raise ValueError(
                 f"Signal {piece.name} of {type} has a mux_signal but no mux_count"
+            )
+
+        if piece.endianess not in ("little", "big"):
+            raise ValueError(
+                f"Signal {piece.name} of {type}: endianess is 'little' or 'big', not '{piece.endianess}'"
             )
 
         if piece.endianess == "big" and (piece.bitstart % 8 or piece.bitlength % 8):
@@ -84,7 +94,7 @@ def _make_signals(
         signals.append(
             CanSignal(
                 piece.name.replace("::", "_"),
-                (piece.bitstart + 7) if piece.endianess != "little" else piece.bitstart,
+                (piece.bitstart + 7) if piece.endianess == "big" else piece.bitstart,
                 piece.bitlength,
                 byte_order=(
                     "big_endian" if piece.endianess == "big" else "little_endian"
@@ -129,6 +139,8 @@ def write_dbc(fcp: FcpV2) -> Result[str, str]:
         id = impl.fields.get("id")
         if id is None:
             return Err("No id field found in extension")
+        if not isinstance(id, int) or id < 0:
+            raise ValueError(f"Frame id {id} of {impl.name} is not a CAN identifier")
 
         buses[bus]["messages"].append(
             CanMessage(
